@@ -7,7 +7,7 @@ import math
 import numpy as np
 from hypothesis import strategies as st
 
-from ..core import SubCheck, Violation, cut, quiet, require
+from ..core import other_environment_body, SubCheck, Violation, cut, quiet, require
 from ..oracles.geometry import R_EARTH
 from ..strategies import bfloat, log_uniform
 
@@ -354,6 +354,12 @@ dark_common = dict(
     phase_cut=st.one_of(st.floats(0.0, math.pi), st.sampled_from([math.radians(150.0), math.radians(150.0), math.pi])),
 )
 
+OTHER_ENVS = [
+    {"TZ": "Asia/Kolkata"},
+    {"TZ": "America/St_Johns", "LC_ALL": "C", "LANG": "C", "PYTHONUTF8": "0", "PYTHONCOERCECLOCALE": "0"},
+    {"TZ": "Pacific/Kiritimati", "PYTHONOPTIMIZE": "1"},
+]
+
 SUBCHECKS = [
     SubCheck(
         "geometry",
@@ -363,6 +369,15 @@ SUBCHECKS = [
         {"quick": 160, "thorough": 4000},
         doc="instants, kept set vs independently computed nadir angle, triangle relations on the reported values",
         tolerances={"time_s": 1e-6, "angle_band_deg": 0.01, "triangle_rel": 1e-9},
+        shrink=False,
+    ),
+    SubCheck(
+        "geometry_other_environment",
+        st.fixed_dictionaries({"cases": st.lists(st.fixed_dictionaries(geo_common), min_size=6, max_size=10), "env": st.sampled_from([0, 1, 2])}),
+        other_environment_body("nssverif.props.c13", "geometry", OTHER_ENVS),
+        lambda labels: True,
+        {"quick": 3, "thorough": 60},
+        doc="generated geometry cases re-run in a fresh interpreter under other time zones (UTC+5:30, UTC-3:30, UTC+14), without a UTF-8 locale and under python -O: instants and kept set do not depend on the process environment",
         shrink=False,
     ),
     SubCheck(
